@@ -1,5 +1,3 @@
-//go:build verif_c03
-
 package harness
 
 import (
